@@ -281,6 +281,20 @@ def hairline_corpus(ctx):
     pred[0, 20:27] = 2                      # 7/10 against 0.69999999 (met) and 0.70000001 (not met)
     one_case(ctx, pred, ref, "IOU", (70000001, 100000000), "corpus.hairline-threshold-1e-8")
     one_case(ctx, pred, ref, "IOU", (69999999, 100000000), "corpus.hairline-threshold-1e-8")
+    # (d) thresholds one float beyond an attained score (relative distance 1.6e-16): not met — and the float just below: met
+    import math
+    ref = np.zeros((1, 40), np.uint8)
+    pred = np.zeros((1, 40), np.uint8)
+    ref[0, 0:10] = 1
+    pred[0, 3:10] = 1                       # IoU 7/10, Dice 14/17
+    pred[0, 0:2] = 2                        # a fragment that would improve the score if the reference were matched at all
+    ref[0, 20:30] = 2
+    pred[0, 20:29] = 3                      # IoU 9/10: matched in every variant (keeps the scene from being empty-handed)
+    for metric, sc in (("IOU", 0.7), ("DSC", 14 / 17)):
+        for t in (math.nextafter(sc, math.inf), 0.1 * 7 if metric == "IOU" else math.nextafter(math.nextafter(sc, math.inf), math.inf), math.nextafter(sc, -math.inf), sc):
+            if 0.0 < t <= 1.0:
+                ctx.count("threshold_one_float_from_a_score")
+                one_case(ctx, pred, ref, metric, t.as_integer_ratio(), "corpus.hairline-threshold-one-ulp")
 
 
 def big_and_small_corpus(ctx):
